@@ -2,8 +2,9 @@ SPECIFICATION MCSpec
 CONSTANTS
   N = 4
   MaxSegs = 3
-  MaxOps = 4
+  MaxOps = 3
   Ids = {"s1"}
+  TakeNs <- TakeThorough
   Fix <- FixRepo
 INVARIANTS TypeOK
 PROPERTIES StepsOK MonotoneOK
